@@ -557,7 +557,8 @@ def spectral_capture(f, A, g):
         mods.append([list(map(int, b)) for b in ls]); return o_ls(ls, *x, **k)
     sl.eig, sl.eigh, bm.ls2ci = w_eig, w_eigh, w_ls
     try:
-        ci, q = call(f, A, gamma=g, _t=20.0)
+        with variant_retry(lambda: (sizes.clear(), mods.clear())):      # (input layer: a repeated / decoy call leaves nothing in the recording)
+            ci, q = call(f, A, gamma=g, _t=20.0)
     finally:
         sl.eig, sl.eigh, bm.ls2ci = o_eig, o_eigh, o_ls
     if len(mods) != 1:
